@@ -263,3 +263,33 @@ Theorem C11_nonvacuous :
    (1, 1, 0, 2, [104; 105])].
 Proof. exact C11_nonvacuous_holds. Qed.
 Print Assumptions C11_nonvacuous.
+
+(** ** Translator tie: the step structure of [_do_fwd] read from the source on every run
+    ([Gen/FwdSteps.v] by translate/targets/fwdsteps.py; meaning of the steps: [Proofs/BpFwdTie.run_step]).
+    An edit of [_do_fwd] that iterates the live list again, drops the hop-count re-encoding, changes the
+    increment, the order of the steps, the guard of the age block or the age expression changes the generated
+    definitions and breaks one of these theorems (or makes the translator fail closed). *)
+From Coq Require Import ZArith.
+From DTN Require Import Gen.FwdSteps Proofs.BpFwdTie.
+Local Open Scope N_scope.
+
+(** what the source does, in order: remove every Previous Node block (iterating over a copy), add this
+    node's, increment every hop count by 1 and re-encode it, remove every Bundle Age block (over a copy),
+    add the new age under the guard *)
+Theorem C11_tie_steps :
+  fwd_steps = [StRemoveAll 6 true; StAddPrevNode; StBumpHop 1 true; StRemoveAll 7 true; StAddAge].
+Proof. exact tie_steps_shape. Qed.
+Print Assumptions C11_tie_steps.
+
+(** the model of the theorems above is the interpretation of exactly those steps, for every bundle *)
+Theorem C11_tie_model_performs_the_steps : forall (node : eid) (now ctime : N) (bl : list cblock),
+  fwd_blocks node now ctime bl = run_steps fwd_steps node now ctime bl.
+Proof. exact tie_fwd_blocks. Qed.
+Print Assumptions C11_tie_model_performs_the_steps.
+
+(** the age block is added iff the received creation time is not 0, and carries now - creation as an integer *)
+Theorem C11_tie_age : forall (now ctime : N),
+  fwd_age_guard ctime = negb (ctime =? 0) /\
+  cbor_int (age_item now ctime) = Some (fwd_age (Z.of_N now) (Z.of_N ctime)).
+Proof. intros now ctime. exact (conj (tie_age_guard ctime) (tie_age_value now ctime)). Qed.
+Print Assumptions C11_tie_age.
